@@ -6,7 +6,7 @@
 //!   harness hashx    < model.out          (evaluates `(h ..)`/`(s ..)` pre-image trees)
 mod prng;
 mod util;
-mod c18;
+include!(concat!(env!("OUT_DIR"), "/registry.rs"));
 
 use prng::Rng;
 use std::io::{BufRead, Write};
@@ -32,12 +32,6 @@ pub struct Stream {
     pub gen: fn(&mut Rng, Tier) -> Vec<String>,
     pub imp: fn(&mut Toks) -> Result<String, String>,
     pub oracle: fn(&mut Toks, Tier) -> Result<OracleOut, String>,
-}
-
-fn streams() -> Vec<Stream> {
-    let mut v = Vec::new();
-    v.extend(c18::streams());
-    v
 }
 
 fn find<'a>(ss: &'a [Stream], name: &str) -> Option<&'a Stream> {
